@@ -69,15 +69,19 @@ Section Exporter.
     intros Hn H. unfold offer.
     assert (HK : K (add_offered st n) (fsum (s_flushq (add_offered st n)) + n)).
     { destruct H as (A & B & C). unfold Proofs2.K, infl_nf in *. cbn. repeat split; auto. lia. }
+    assert (Hnote : forall s k, Inv s -> Inv (note_send o s k)) by (intros s k Hs; unfold note_send; destruct (is_wfr o); exact Hs).
+    assert (Hroom : forall c, Inv (no_room o c (add_offered st n) n)) by (intros c; unfold no_room; apply Hnote, reject_Inv; exact HK).
     destruct (qc o) as [c|] eqn:Eq.
     - destruct (q_storage c).
-      + destruct (over (q_cap c) _); [apply reject_Inv|apply accept_Inv]; auto.
+      + destruct (q_block c && over (q_cap c) (el_size o n)); [apply Hnote, reject_Inv; auto|].
+        destruct (over (q_cap c) _); [apply Hroom|].
+        destruct (n =? o_badmarshal o); [apply Hnote, reject_Inv; auto|apply Hnote, accept_Inv; auto].
       + destruct (el_size o n =? 0) eqn:E0.
-        * apply Z.eqb_eq in E0. destruct (q_items_sizer c) eqn:Es.
+        * apply Hnote. apply Z.eqb_eq in E0. destruct (q_items_sizer c) eqn:Es.
           -- rewrite (el_size_items n c Eq Es) in E0. subst n. rewrite Z.add_0_r in HK. exact HK.
           -- rewrite (el_size_requests n c Eq Es) in E0. discriminate.
-        * destruct (over (q_cap c) (el_size o n)); [apply reject_Inv; auto|].
-          destruct (over (q_cap c) _); [apply reject_Inv|apply accept_Inv]; auto.
+        * destruct (over (q_cap c) (el_size o n)); [apply Hnote, reject_Inv; auto|].
+          destruct (over (q_cap c) _); [apply Hroom|apply Hnote, accept_Inv]; auto.
     - apply (work_Inv o Hsig). unfold Proofs2.Inv, push_flushes. cbn [s_flushq set_flushq].
       rewrite fsum_app. unfold fsum at 2. cbn [map fst sumZ]. rewrite Z.add_0_r. exact HK.
   Qed.
